@@ -9,7 +9,7 @@ mod drivers;
 pub mod exact;
 mod rng;
 
-use drivers::{call, static_len, Ctx, Fx, Part, Plan, Token, DIMS1, DIMS2, SCALARS, SHAPE};
+use drivers::{call, static_len, Ctx, Fx, Part, Plan, Token, BIG_STATIC2, DIMS1, DIMS2, SCALARS, SHAPE};
 use exact::{Dy, Poly};
 use rng::{mix, Rng};
 use serde::{Deserialize, Serialize};
@@ -426,7 +426,8 @@ fn cases_for_value(seed: u64, i: u64, thorough: bool) -> Vec<Case> {
     let driver = DRIVERS[(i as usize) % DRIVERS.len()];
     let scalar = SCALARS[(i as usize / DRIVERS.len()) % SCALARS.len()];
     let two = matches!(driver, "jacobian" | "partial_hessian");
-    let dim = if two { DIMS2[r.below(DIMS2.len())] } else { DIMS1[r.below(DIMS1.len())] };
+    // the large static shape only for jacobian: partial_hessian's 100 statically sized hyper-dual inputs of 2 500 entries each would not fit a stack
+    let dim = if two { if driver == "jacobian" && r.chance(15) { BIG_STATIC2 } else { DIMS2[r.below(DIMS2.len())] } } else { DIMS1[r.below(DIMS1.len())] };
     let dynlen = |r: &mut Rng| if r.chance(if thorough { 60 } else { 25 }) { [16, 17, 33, 64, 65][r.below(5)] } else { 1 + r.below(if thorough { 12 } else { 8 }) };
     // lengths at and around powers of two up to 1025 (strip-mined or blocked code paths), where that is affordable: the
     // inputs of a gradient, one side of a jacobian; and the empty input vector
@@ -441,7 +442,7 @@ fn cases_for_value(seed: u64, i: u64, thorough: bool) -> Vec<Case> {
                 n = biglen(&mut r);
             }
         }
-        "third_partial_derivative_vec" => n = 1 + r.below(7),
+        "third_partial_derivative_vec" => n = if r.chance(60) { [16, 17, 33][r.below(3)] } else { 1 + r.below(12) },
         "jacobian" | "partial_hessian" => {
             let (a, b) = dim.split_once('x').unwrap();
             m = static_len(a).unwrap_or_else(|| dynlen(&mut r));
@@ -571,7 +572,7 @@ fn same_class(case: &Case, class: &Class) -> Option<Outcome> {
 }
 
 fn in_fresh_thread<T: Send + 'static>(f: impl FnOnce() -> T + Send + 'static) -> T {
-    std::thread::spawn(f).join().expect("harness thread panicked")
+    std::thread::Builder::new().stack_size(256 << 20).spawn(f).expect("spawn").join().expect("harness thread panicked")
 }
 
 fn trace_for(seed: u64, thorough: bool, from: u64, vi: u64, ci: usize) -> Vec<Case> {
@@ -803,7 +804,7 @@ fn main() {
         let handles: Vec<_> = (0..nthreads)
             .map(|t| {
                 let (from, to) = (t * chunk, ((t + 1) * chunk).min(n));
-                std::thread::spawn(move || run_range(seed, from, to.max(from), thorough))
+                std::thread::Builder::new().stack_size(256 << 20).spawn(move || run_range(seed, from, to.max(from), thorough)).expect("spawn worker")
             })
             .collect();
         let mut total = Stats::default();
